@@ -78,17 +78,9 @@ def run(ctx, chk):
                             probs.append('%s argument: %s' % (c[0], why))
                     elif not isinstance(arg, str):
                         probs.append('%s argument not derived from the payload: %r' % (c[0], arg))
-                names = [c[0] for c in calls]
-                # which code digits select which call
-                want_icon = facts.get('01')
-                want_title = facts.get('02')
-                if ('set_icon_name' in names) != bool(want_icon) or ('set_title' in names) != bool(want_title):
-                    probs.append('calls %s under code tests %s (documented: icon name for codes in "01", title for codes in "02")' % (names, facts))
                 if o[0] != F.sites.index(F.ground):
                     probs.append('does not return to ground')
-            need = {(), ('set_icon_name',), ('set_title',), ('set_icon_name', 'set_title')}
-            if shapes != need:
-                probs.append('outcome shapes %s, documented %s' % (sorted(shapes), sorted(need)))
+            # (which code selects which setter is decided below on every code, however the code is tested)
             n += 1
             chk.instance('R-FSM', name, 'OSC finish on %s: payload tail to the selected setters' % term, not probs and bool(outs),
                          detail='; '.join(sorted(set(probs))) or '%d outcomes' % len(outs),
@@ -106,6 +98,19 @@ def run(ctx, chk):
             n += 1
             chk.instance('R-FSM', name, 'OSC witness: %s' % what, ok, detail='script ESC %r -> %s' % (''.join(script), got),
                          what='ESC %r must produce %s and return to ground, extracted %s' % (''.join(script), want, got))
+    # code -> setters, for every code character the statement quantifies over and every terminator
+    for es in esc_sites:
+        for term, tail in (('BEL', ['\x07']), ('ST', ['\x9c']), ('ESC \\', ['\x1b', '\\'])):
+            bad = []
+            for code in '0123456789abxzAZ':
+                want = {'0': [('set_icon_name', 'q'), ('set_title', 'q')], '1': [('set_icon_name', 'q')], '2': [('set_title', 'q')]}.get(code, [])
+                outs = F.step(es, [']', code, ';', 'q'] + tail)
+                got = [[tuple(c[:2]) for c in lcalls(o[1])] for o in outs]
+                if not outs or any(g_ != want for g_ in got) or any(o[0] != F.sites.index(F.ground) for o in outs):
+                    bad.append('OSC %s;q %s calls %s, documented %s' % (code, term, got[:2], want))
+            n += 1
+            chk.instance('R-FSM', name, 'OSC code -> setters on %s (codes 0-9 and letters)' % term, not bad, detail='; '.join(bad[:3]) or '16 codes as documented',
+                         what='; '.join(bad[:2]))
     chk.floor('OSC data clauses', n, 10)
     # setters store verbatim and write only their field
     sr = ctx.screen_run()
